@@ -32,8 +32,8 @@ enum Op {
 // (module, task, op index, tag, value, now)   all times in ms
 static LOG: Mutex<Vec<(usize, usize, usize, &'static str, i64, u64)>> = Mutex::new(Vec::new());
 
-fn now_ms() -> u64 { SimTime::now().as_millis() as u64 }
-fn ms(d: u64) -> Duration { Duration::from_millis(d) }
+fn now_ms() -> u64 { SimTime::now().as_micros() as u64 } // all times of this driver are MICROSECONDS (names kept)
+fn ms(d: u64) -> Duration { Duration::from_micros(d) }
 fn at(t: u64) -> SimTime { SimTime::from_duration(ms(t)) }
 fn log(m: usize, t: usize, i: usize, tag: &'static str, v: i64) { LOG.lock().unwrap().push((m, t, i, tag, v, now_ms())); }
 
@@ -76,16 +76,16 @@ async fn run_task(m: usize, t: usize, prog: Vec<Op>, mut rx: tokio::sync::mpsc::
             Op::TimeoutAt(x, di) => { let r = timeout_at(at(x), sleep(ms(di))).await; log(m, t, i, "timeout_at", r.is_ok() as i64); }
             Op::IntervalAt(x, p, k) => {
                 let mut iv = interval_at(at(x), ms(p));
-                for _ in 0..k { let scheduled = iv.tick().await; log(m, t, i, "tick_at", scheduled.as_millis() as i64); }
+                for _ in 0..k { let scheduled = iv.tick().await; log(m, t, i, "tick_at", scheduled.as_micros() as i64); }
             }
             Op::IntervalReset(p, w) => {
                 let mut iv = interval(ms(p));
                 let s0 = iv.tick().await;
-                log(m, t, i, "tick", s0.as_millis() as i64);
+                log(m, t, i, "tick", s0.as_micros() as i64);
                 sleep(ms(w)).await;
                 iv.reset();
                 let s1 = iv.tick().await;
-                log(m, t, i, "tick_after_reset", s1.as_millis() as i64);
+                log(m, t, i, "tick_after_reset", s1.as_micros() as i64);
             }
             Op::Abort(d0, d) => {
                 let h = tokio::spawn(async move { sleep(ms(d)).await; log(m, t, i, "ABORTED-TASK-RAN", 0); });
@@ -98,7 +98,7 @@ async fn run_task(m: usize, t: usize, prog: Vec<Op>, mut rx: tokio::sync::mpsc::
                 iv.set_missed_tick_behavior(match b { 0 => MissedTickBehavior::Burst, 1 => MissedTickBehavior::Delay, _ => MissedTickBehavior::Skip });
                 for w in work {
                     let scheduled = iv.tick().await;
-                    log(m, t, i, "tick", scheduled.as_millis() as i64);
+                    log(m, t, i, "tick", scheduled.as_micros() as i64);
                     if w > 0 { sleep(ms(w)).await; }
                 }
                 log(m, t, i, "interval_done", 0);
@@ -176,21 +176,33 @@ impl Module for M {
 }
 
 fn gen_prog(r: &mut dyn FnMut() -> u64) -> Vec<Op> {
-    if r() % 5 == 0 { return vec![Op::Debounce(10 + (r() % 5) * 10, 2 + (r() % 5) * 10)]; }
+    const K: u64 = 1000; // ms -> us
+    if r() % 5 == 0 { return vec![Op::Debounce((10 + (r() % 5) * 10) * K, (2 + (r() % 5) * 10) * K)]; }
     let n = 1 + (r() % 5) as usize;
-    let d = |r: &mut dyn FnMut() -> u64| (r() % 6) * 10;
-    (0..n).map(|_| match r() % 13 {
-        9 => Op::TimeoutAt((r() % 12) * 10, d(r)),
-        10 => Op::IntervalAt((r() % 8) * 10, 10 + (r() % 3) * 10, 1 + (r() % 3) as usize),
-        11 => Op::IntervalReset(10 + (r() % 3) * 10, (r() % 4) * 10),
-        12 => { let d0 = d(r); Op::Abort(d0, d0 + 10 + d(r)) }
+    let d = |r: &mut dyn FnMut() -> u64| (r() % 6) * 10 * K;
+    (0..n).map(|_| match r() % 14 {
+        9 => Op::TimeoutAt((r() % 12) * 10 * K, d(r)),
+        10 => Op::IntervalAt((r() % 8) * 10 * K, (10 + (r() % 3) * 10) * K, 1 + (r() % 3) as usize),
+        11 => Op::IntervalReset((10 + (r() % 3) * 10) * K, (r() % 4) * 10 * K),
+        12 => { let d0 = d(r); Op::Abort(d0, d0 + 10 * K + d(r)) }
+        // periods and latenesses that are NOT whole milliseconds. Exactly one tick is late, by more than the 5 ms below which a tick
+        // does not count as missed and (for Burst) by less than one period, so that every later tick is on time again
+        13 => {
+            let b = (r() % 3) as u8;
+            let p = if b == 0 { [7_300u64, 10_400][(r() % 2) as usize] } else { [2_500u64, 7_300, 10_400][(r() % 3) as usize] };
+            let late = if b == 0 { 5_300 + (r() % 3) * 700 } else { 5_300 + (r() % 12) * 700 };
+            let mut work = vec![p + late];
+            for _ in 0..(r() % 3) { work.push(0); }
+            if r() % 2 == 0 { work.insert(0, 0); }
+            Op::Interval(p, b, work)
+        }
         0 | 1 => Op::Sleep(d(r)),
-        2 => Op::SleepUntil((r() % 12) * 10),
+        2 => Op::SleepUntil((r() % 12) * 10 * K),
         3 | 4 => Op::PollDrop(d(r)),
         5 => Op::Reset(d(r), d(r)),
         6 => Op::TimeoutSleep(d(r), d(r)),
         7 => Op::TimeoutPending(d(r)),
-        _ => Op::Interval(10 + (r() % 3) * 10, (r() % 3) as u8, (0..1 + r() % 4).map(|_| if r() % 3 == 0 { 20 + (r() % 4) * 10 } else { 0 }).collect()),
+        _ => Op::Interval((10 + (r() % 3) * 10) * K, (r() % 3) as u8, (0..1 + r() % 4).map(|_| if r() % 3 == 0 { (20 + (r() % 4) * 10) * K } else { 0 }).collect()),
     }).collect()
 }
 
@@ -204,8 +216,8 @@ fn main() {
     for _ in 0..count {
         let nmod = 1 + (rnd() % 2) as usize;
         let progs: Vec<Vec<Vec<Op>>> = (0..nmod).map(|_| (0..1 + rnd() % 3).map(|_| gen_prog(&mut rnd)).collect()).collect();
-        // self-messages at 5 mod 10 ms (never in the same instant as a timer), sorted, distinct
-        let pings: Vec<Vec<u64>> = (0..nmod).map(|_| { let mut v: Vec<u64> = (0..rnd() % 4).map(|_| 5 + (rnd() % 10) * 10).collect(); v.sort(); v.dedup(); v }).collect();
+        // self-messages at 5 ms + 1 us mod 10 ms (never in the same instant as a timer, also not of the fine-grained intervals), sorted, distinct
+        let pings: Vec<Vec<u64>> = (0..nmod).map(|_| { let mut v: Vec<u64> = (0..rnd() % 4).map(|_| (5 + (rnd() % 10) * 10) * 1000 + 1).collect(); v.sort(); v.dedup(); v }).collect();
         LOG.lock().unwrap().clear();
         let mut sim = Sim::new(());
         for (i, p) in progs.iter().enumerate() { sim.node(format!("m{}", i).as_str(), M { id: i, progs: p.clone(), pings: pings[i].clone(), txs: vec![] }); }
@@ -224,7 +236,7 @@ fn main() {
             Err(_) => bad = Some(("run-panicked", "run() returns".into(), "panic".into())),
             Ok(Err(e)) => { if got == want { bad = Some(("run-reports-error", "Ok: every task finished".into(), format!("{:?}", e))); } }
             // the end time may exceed the last deadline: wake-up events of timers that were dropped or reset stay in the event set
-            Ok(Ok((_, t, _))) => { if got == want && (t.as_millis() as u64) < end_want { bad = Some(("end-time", format!(">= {} ms", end_want), format!("{} ms", t.as_millis()))); } }
+            Ok(Ok((_, t, _))) => { if got == want && (t.as_micros() as u64) < end_want { bad = Some(("end-time", format!(">= {} us", end_want), format!("{} us", t.as_micros()))); } }
         }
         if got != want {
             // first task whose own log differs from its reference
@@ -235,14 +247,14 @@ fn main() {
                 let w: Vec<_> = want.iter().filter(|e| key(e) == tk).collect();
                 if g != w {
                     let k = g.iter().zip(w.iter()).position(|(a, b)| a != b).unwrap_or(g.len().min(w.len()));
-                    bad = Some(("timer-completion-differs", format!("module {} task {}: (module, task, op, what, value, at_ms) {:?}", tk.0, tk.1, w.get(k)),
+                    bad = Some(("timer-completion-differs", format!("module {} task {}: (module, task, op, what, value, at_us) {:?}", tk.0, tk.1, w.get(k)),
                                 match g.get(k) { Some(e) => format!("{:?}", e), None => format!("never completed (the task's log ends after {} entries; the run ended at {:?})", g.len(), res.as_ref().ok().and_then(|r| r.as_ref().ok()).map(|r| r.1)) }));
                     break;
                 }
             }
         }
         if let Some((kind, exp, obs)) = bad {
-            println!("{{\"mismatch\":true,\"kind\":\"{}\",\"props\":\"C05\",\"scenario\":{{\"timer_programs_ms\":\"{}\"}},\"expected\":\"{}\",\"observed\":\"{}\"}}", kind, scen.replace('"', "'"), exp.replace('"', "'"), obs.replace('"', "'"));
+            println!("{{\"mismatch\":true,\"kind\":\"{}\",\"props\":\"C05\",\"scenario\":{{\"timer_programs_us\":\"{}\"}},\"expected\":\"{}\",\"observed\":\"{}\"}}", kind, scen.replace('"', "'"), exp.replace('"', "'"), obs.replace('"', "'"));
             std::process::exit(3);
         }
     }
